@@ -132,6 +132,15 @@ def run(tier):
                 beh.append((n, [b, "{ RdV = RsV; }"]))      # two parts
             else:
                 beh.append((n, [b]))
+        # two entries whose parts CONCATENATE to the same text but are split differently (one of them syntactically broken), and exact duplicates
+        for n_, b_ in rnd.sample(sample, min(3, len(sample))):
+            if "__COMPOUND_PART1__" in b_:
+                continue
+            k_ = rnd.randint(3, max(4, len(b_) - 3))
+            beh.append((n_ + "_whole", [b_]))
+            beh.append((n_ + "_split", [b_[:k_], b_[k_:]]))
+            brokenb.append(n_ + "_split")
+            beh.append((n_ + "_dup", [b_]))
         rnd.shuffle(beh)
         delays = {n: rnd.choice([0, 0, 0.05, 0.2, 0.4]) for n, _ in beh}
         runs.append({"behaviors": beh, "pool": rnd.choice([1, 2, 3, 4, 8, 16]) if i else 1, "delays": delays, "broken": brokenb})
